@@ -298,6 +298,26 @@ def run(ctx):
 
 
 def replay(ctx, body):
+    if body.get('kind') == 'no-failing-input-found':
+        # the replay names proof obligations / correspondence cases that no longer check: regenerate,
+        # rebuild, re-check the obligations and re-run the named cases through model and implementation
+        build_ok, obl, regen = core.std_setup(ctx)
+        print('regeneration: %s' % json.dumps(regen))
+        broken = (not build_ok) or bool(obl['problems']) or not obl['obligations'] or obl['discharged'] != obl['obligations']
+        cases = [m['input'] for m in (body.get('mismatching_cases') or []) if m.get('input')]
+        bad, errors = [], []
+        if cases and not broken:
+            results = run_impl_cases(cases)
+            terms = [c_case(c, r['obs']) for c, r in zip(cases, results)]
+            bad, errors = core.coq_eval_cases(ctx, HEADER, CASE_TYPE, terms, 'C14.mismatches', chunk=400)
+        if broken or bad or errors:
+            print('still broken: proofs %s; correspondence cases differing %s %s'
+                  % (json.dumps(obl['problems'])[:800], bad, json.dumps(errors)[:300]))
+            print('VIOLATION property=C14 replay=%s no-failing-input-found' % body.get('replay_cmd', '').split()[-1])
+            return 1
+        print('replay: all %d proof obligations check against the regenerated programs and the named cases agree now'
+              % obl['obligations'])
+        return 0
     case = body.get('input') or (body.get('mismatching_cases') or [{}])[0].get('input')
     r = run_impl_cases([case])[0]
     print(json.dumps(r['fails'], indent=1))
